@@ -47,6 +47,13 @@ func c06Log(r *rand.Rand, dates []gen.Date, n int) gen.Log {
 		for j := 0; j <= r.Intn(3); j++ {
 			day.Ents = append(day.Ents, gen.Ent{Name: foods[r.Intn(len(foods))], Val: gen.EQty(r)})
 		}
+		if r.Intn(2) == 0 {
+			// notes belong to their day: print shows them, and only under the days that are selected
+			day.Notes = []gen.Note{{Key: "mood", Text: fmt.Sprintf("note %d", i)}}
+			if r.Intn(2) == 0 {
+				day.Notes = append(day.Notes, gen.Note{Text: fmt.Sprintf("plain remark %d", i)})
+			}
+		}
 		log = append(log, day)
 	}
 	return log
